@@ -144,8 +144,12 @@ func (m *recoveryMessage) GetPreCommits(p dbft.ConsensusPayload[crypto.Uint256],
 	payloads := make([]dbft.ConsensusPayload[crypto.Uint256], len(m.preCommitPayloads))
 
 	for i, c := range m.preCommitPayloads {
-		payloads[i] = fromPayload(dbft.PreCommitType, p, &preCommit{magic: binary.BigEndian.Uint32(c.Data)})
-		payloads[i].SetValidatorIndex(c.ValidatorIndex)
+		preC := fromPayload(dbft.PreCommitType, p, &preCommit{magic: binary.BigEndian.Uint32(c.Data)})
+		// PreCommits of the previous views are kept and packed too, the view
+		// of the recovery message is not necessarily the one they were sent at.
+		preC.viewNumber = c.ViewNumber
+		preC.SetValidatorIndex(c.ValidatorIndex)
+		payloads[i] = preC
 	}
 
 	return payloads
@@ -156,8 +160,12 @@ func (m *recoveryMessage) GetCommits(p dbft.ConsensusPayload[crypto.Uint256], _ 
 	payloads := make([]dbft.ConsensusPayload[crypto.Uint256], len(m.commitPayloads))
 
 	for i, c := range m.commitPayloads {
-		payloads[i] = fromPayload(dbft.CommitType, p, &commit{signature: c.Signature})
-		payloads[i].SetValidatorIndex(c.ValidatorIndex)
+		cm := fromPayload(dbft.CommitType, p, &commit{signature: c.Signature})
+		// Commits of the previous views are kept and packed too, the view
+		// of the recovery message is not necessarily the one they were sent at.
+		cm.viewNumber = c.ViewNumber
+		cm.SetValidatorIndex(c.ValidatorIndex)
+		payloads[i] = cm
 	}
 
 	return payloads
